@@ -80,12 +80,19 @@ def jmsg(a: dict) -> dict:
         return {"cmd": "BAD", "req": False, "hbh": 0, "e2e": 0, "app": 0, "rc": 0, "oh": ""}
     return {"cmd": a["cmd"], "code": a["code"], "req": bool(a["req"]), "hbh": a["hbh"], "e2e": a["e2e"], "app": a["app"],
             "rc": a["rc"] if isinstance(a["rc"], int) else 0, "oh": a["oh"] or "", "T": bool(a["T"]), "P": bool(a.get("P")),
-            "E": bool(a.get("E")), "rlm": a.get("rlm", "")} | ({"dc": a["dc"]} if a.get("cmd") == "DP" and a.get("req") and isinstance(a.get("dc"), int) else {})
+            "E": bool(a.get("E")), "rlm": a.get("rlm", "")} | ({"dc": a["dc"]} if a.get("cmd") == "DP" and a.get("req") and isinstance(a.get("dc"), int) else {}) \
+        | ({"x": a["x"]} if "x" in a else {})
 
 
 # ----------------------------------------------------------------------
 # configuration -> World / model parameters
 # ----------------------------------------------------------------------
+NODE_VENDOR = 99001
+NODE_PRODUCT = "verif-node"
+from .world import BASE_TIME as _BT
+NODE_OSI = int(_BT)
+
+
 def model_params(cfg, max_conn=6, pinned=()):
     nc = cfg["node"]
     peers = {}
@@ -104,7 +111,9 @@ def model_params(cfg, max_conn=6, pinned=()):
                            "realms": list(a["realms"]), "kind": a["kind"], "handler": a["handler"] if isinstance(a["handler"], str) else "hold",
                            "max": a.get("max_threads", 0)}
     return {"node": {"host": nc["host"], "realm": nc["realm"], "idle": nc["idle"], "dwa": nc["dwa"], "cer": nc["cer"],
-                     "cea": nc["cea"], "wakeup": nc["wakeup"], "retx": nc["retx"], "validate": nc["validate"], "samehbh": bool(nc.get("samehbh"))},
+                     "cea": nc["cea"], "wakeup": nc["wakeup"], "retx": nc["retx"], "validate": nc["validate"], "samehbh": bool(nc.get("samehbh")),
+                     # what the node says about itself (World sets these explicitly): content clauses of Mon_C06 / Mon_C11 / Mon_C20
+                     "listen": bool(nc.get("listen", True)), "ips": ["10.0.0.1"], "vendor": NODE_VENDOR, "product": NODE_PRODUCT, "osi": NODE_OSI},
             "peerOrder": order, "peers": peers, "appOrder": aorder, "apps": apps, "maxConn": max_conn, "pinned": list(pinned)}
 
 
